@@ -64,7 +64,12 @@ pub fn frame_choices(rng: &mut Rng, max_trees: usize) -> usize {
 pub fn classing_choice(rng: &mut Rng, flavor: Flavor) -> (Vec<(u8, usize)>, u8, Pol) {
     if flavor == Flavor::SingleSlot {
         let c = rng.below(3) as u8;
-        return (vec![(c, 1)], c, if rng.chance(1, 2) { Pol::Simple } else { Pol::Movable });
+        return match rng.below(4) {
+            // further classes above the requesting one: the trees start in the default class and are demoted
+            0 => (vec![(0, 1), (1, 1)], 1, Pol::Simple),
+            1 => (vec![(0, 1), (1, 2), (2, 1)], 2, Pol::Movable),
+            _ => (vec![(c, 1)], c, if rng.chance(1, 2) { Pol::Simple } else { Pol::Movable }),
+        };
     }
     let cores = 1 + rng.below(3);
     match rng.below(if flavor == Flavor::Drain { 5 } else { 7 }) {
